@@ -320,7 +320,7 @@ func ExecPPlan(prop string) func(p *PPlan, trace bool) *core.Result {
 		gb := &gateBox{g: &schedGate{sc: sc}}
 		var nl libaudit.NetlinkSendReceiver
 		if HooksEnabled {
-			nl = newRealNetlink(&simSocket{gb: gb}, 4711, make([]byte, 16+8970))
+			nl = newRealNetlink(&simSocket{gb: gb}, 4711, make([]byte, 16+8970), nil)
 		} else {
 			nl = newStubNetlink(gb, 4711)
 		}
